@@ -139,11 +139,12 @@ type c13Cfg struct {
 	gate       string // where Shutdown is placed relative to a gated point
 	until      string // "shutdownCalled" | "shutdownReturned"
 	lateAsync  bool   // one listener's Async is issued concurrently with Shutdown
+	relisten   bool   // listener 0's address was listened on and closed before; the stale handle is closed again
 }
 
 func (g c13Cfg) String() string {
-	return fmt.Sprintf("L=%d preInject=%d preConnect=%d concInject=%d concConnect=%d closeSome=%v lclose=%d gate=%s until=%s lateAsync=%v",
-		g.listeners, g.preInject, g.preConnect, g.concInject, g.concConn, g.closeSome, g.lclose, g.gate, g.until, g.lateAsync)
+	return fmt.Sprintf("L=%d preInject=%d preConnect=%d concInject=%d concConnect=%d closeSome=%v lclose=%d gate=%s until=%s lateAsync=%v relisten=%v",
+		g.listeners, g.preInject, g.preConnect, g.concInject, g.concConn, g.closeSome, g.lclose, g.gate, g.until, g.lateAsync, g.relisten)
 }
 
 var c13Gates = []string{"none", "loop-start", "in-listen", "before-accept", "child-init", "active", "client-init", "activate-during-closeall", "handshake-read-in-active", "panic-in-active"}
@@ -176,6 +177,7 @@ func runC13(c *core.Ctx) {
 			gate:       c13Gates[idx%len(c13Gates)],
 			until:      []string{"shutdownCalled", "shutdownReturned"}[(idx/len(c13Gates))%2],
 			lateAsync:  rng.Intn(4) == 0,
+			relisten:   rng.Intn(5) == 0,
 		}
 		if rng.Intn(4) == 0 {
 			cfg.lclose = rng.Intn(cfg.listeners)
@@ -281,6 +283,7 @@ func c13Trial(c *core.Ctx, id string, cfg c13Cfg) {
 		async    bool
 	}
 	ls := make([]*lst, cfg.listeners)
+	var stale netty.Listener
 	var bg sync.WaitGroup
 	async := func(i int) {
 		li := ls[i]
@@ -291,7 +294,14 @@ func c13Trial(c *core.Ctx, id string, cfg c13Cfg) {
 		})
 	}
 	for i := range ls {
-		ls[i] = &lst{l: bs.Listen(fmt.Sprintf("mock://l%d:%d", i, 1000+i))}
+		url := fmt.Sprintf("mock://l%d:%d", i, 1000+i)
+		if cfg.relisten && i == 0 {
+			// a listener for this address was created and closed earlier; the application listens again
+			// and (e.g. in a deferred clean-up) closes the stale handle once more
+			stale = bs.Listen(url)
+			stale.Close()
+		}
+		ls[i] = &lst{l: bs.Listen(url)}
 	}
 	late := -1
 	if cfg.lateAsync {
@@ -301,6 +311,9 @@ func c13Trial(c *core.Ctx, id string, cfg c13Cfg) {
 		if i != late {
 			async(i)
 		}
+	}
+	if stale != nil {
+		stale.Close()
 	}
 	// wait until the (ungated) listeners are accepting, so that pre-Shutdown injects can be accepted
 	accepting := func() []*mon.MockAcceptor {
@@ -451,7 +464,9 @@ func c13Trial(c *core.Ctx, id string, cfg c13Cfg) {
 	for i, a := range as {
 		c.Count("acceptors_checked", 1)
 		if !a.IsClosed() {
-			if a.InAccept() > 0 {
+			if a.InAccept() > 0 && cfg.relisten && strings.Contains(a.URL, "l0:1000") {
+				viol("stale-listener-close-unregisters-relistened-address", fmt.Sprintf("acceptor #%d (%s) is still accepting after Shutdown: a second Close of an earlier, already closed listener for the same address removed the current listener from the bootstrap's registry, so Shutdown never reached it", i, a.URL))
+			} else if a.InAccept() > 0 {
 				viol("listener-started-after-shutdown-keeps-accepting", fmt.Sprintf("acceptor #%d (%s) is open with an Accept call parked in it after Shutdown returned and every other action finished: the listener is still accepting and nothing can close it", i, a.URL))
 			} else {
 				viol("acceptor-left-open", fmt.Sprintf("acceptor #%d (%s) was never closed", i, a.URL))
@@ -503,7 +518,7 @@ func c13Trial(c *core.Ctx, id string, cfg c13Cfg) {
 			c.Count("activation_during_closeall", 1)
 		}
 	}
-	c.Sig(cfg.listeners, cfg.preInject, cfg.preConnect, cfg.concInject, cfg.concConn, cfg.closeSome, cfg.lclose >= 0, cfg.gate, cfg.until, cfg.lateAsync, hit > 0, len(ts))
+	c.Sig(cfg.listeners, cfg.preInject, cfg.preConnect, cfg.concInject, cfg.concConn, cfg.closeSome, cfg.lclose >= 0, cfg.gate, cfg.until, cfg.lateAsync, cfg.relisten, hit > 0, len(ts))
 	if c.WantSample() && hit > 0 {
 		c.Sample(map[string]interface{}{"history": cfg.String(), "acceptors": len(as), "transports": len(ts), "gates_honoured": hit})
 	}
